@@ -11,7 +11,9 @@ from dataclasses import dataclass, field
 from typing import Any, Callable, Dict, List, Optional, Tuple
 
 from .core import Inconclusive, src_of
-from .normal import (C, Poly, V, band, bnot, bor, call, div8, mod8, opaque, pow2, shl, show, shr, sshift, trunc8, vmin)
+from .normal import (C, Poly, V, band, bnot, bor, call, div8, mod8, opaque, piecewise, pow2, shl, show, shr, sshift, trunc8, vmin)
+
+_PYOPS = {ast.Lt: "<", ast.LtE: "<=", ast.Eq: "==", ast.NotEq: "!=", ast.GtE: ">=", ast.Gt: ">"}
 
 
 @dataclass
@@ -193,6 +195,20 @@ class PyLower:
     def _merge(self, branches: List[Tuple[ast.AST, Poly]], general: Poly, env: Dict[str, Poly], depth: int) -> Poly:
         if not branches:
             return general
+        # (0) all tests compare one quantity with zero: canonical three-region form
+        tests = []
+        for t, v in branches:
+            if isinstance(t, ast.Compare) and len(t.ops) == 1 and type(t.ops[0]) in _PYOPS:
+                tests.append(((_PYOPS[type(t.ops[0])], self.expr(t.left, env, depth), self.expr(t.comparators[0], env, depth)), v))
+            elif isinstance(t, ast.UnaryOp) and isinstance(t.op, ast.Not) and isinstance(t.operand, ast.Name):
+                tests.append((("==", self.expr(t.operand, env, depth), C(0)), v))
+            elif isinstance(t, ast.Name):
+                tests.append((("!=", self.expr(t, env, depth), C(0)), v))
+            else:
+                tests.append((None, v))
+        pw = piecewise(tests, general)
+        if pw is not None:
+            return pw
         # (1) signed-shift shape: k > 0 -> n >> k ; k < 0 -> n << -k ; else n
         if len(branches) == 2:
             (t1, v1), (t2, v2) = branches
